@@ -338,3 +338,21 @@ Proof.
   destruct (lt y x); [apply Permutation_rev|apply Permutation_refl].
 Qed.
 End SortPerm.
+
+(* ------------------------------------------------ duplicate start_task (C06) *)
+(* a redelivered first-run start request for a task that has already started creates no task
+   and no action execution and changes no row; it can only register one more (de-duplicated)
+   refresh scheduling for downstream joins *)
+Theorem duplicate_first_start_inert sp s tid rerun reset :
+  is_idle (t_state (get_task s tid)) = false ->
+  let s' := fst (do_start_task sp s tid true rerun reset) in
+  tasks s' = tasks s /\ acts s' = acts s /\ wf_state s' = wf_state s /\ backlog s' = backlog s.
+Proof.
+  intros Hi. unfold do_start_task. cbv zeta.
+  destruct (Nat.leb _ _); [repeat split; reflexivity|].
+  rewrite Hi. simpl.
+  unfold commit, check_affected. simpl.
+  destruct (negb (is_completed (t_state (get_task s tid)))); simpl; [repeat split; reflexivity|].
+  destruct (is_completed (wf_state s)); simpl; [repeat split; reflexivity|].
+  destruct (map OSchedRefresh (affected sp s (t_name (get_task s tid)))); simpl; repeat split; reflexivity.
+Qed.
